@@ -145,6 +145,34 @@ def r2(ctx):
                               (r[:200], (": differs at (ordered, aggregate, limit, found) = %s" % (bad[0],)) if bad else ""))
     ctx.covered("early-exit tests on (limit, found), each evaluated on 2 x 2 x 4 x 5 points", n, distinct_keys=["sites:%d" % n], exhaustive=True)
     ctx.floor(n, 2, "limit early-exit sites (directory loop, archive loop)", VISIT_DIR)
+    # conversely, every place that produces rows is behind such a test: each call of check_file sits in a loop round that
+    # starts with (is preceded, in an enclosing loop body, by) a leaving test on (limit, found) - a new producer of rows
+    # (another kind of root, another container) without it prints past LIMIT
+    m = 0
+    for name in sorted(ctx.prog.fns):
+        if "{closure" in name or not name.startswith("searcher::"):
+            continue
+        import norm
+        if norm.known_fns() is not None and name not in norm.known_fns():
+            continue        # helpers introduced later are read inlined in their callers
+        h = ctx.prog.hir(name)
+        if h is None:
+            continue
+        for c in walk_exprs(h):
+            if not (c["k"] == "MCall" and c["m"] == "check_file"):
+                continue
+            m += 1
+            gs = guards_of(h, c) or []
+            stops = [g for g in gs if g[0] == "exit" and "limit" in render(g[1]) and "found" in render(g[1])]
+            in_loop = any(g[0] == "loop" for g in gs)
+            ok = bool(stops) and in_loop
+            ctx.obligation(ok)
+            if not ok:
+                ctx.violation("producer-without-stop/%s" % short(name, 1), ctx.where(name, c),
+                              "check_file is called here (rows are produced) without a preceding stop test on `limit <= found` in the same loop round: "
+                              "an unordered query prints more than LIMIT rows from this producer")
+    ctx.covered("producers of rows (calls of check_file) behind a LIMIT stop test", m, distinct_keys=["producers:%d" % m])
+    ctx.floor(m, 2, "calls of check_file (directory entries, archive members)", VISIT_DIR)
 
 
 def r3(ctx):
